@@ -557,10 +557,13 @@ pub fn lookalike_payloads(thorough: bool) -> Vec<T> {
     for r in &rows {
         out.push(r.clone());
     }
-    for a in &rows {
-        for b in &rows {
+    for (ia, a) in rows.iter().enumerate() {
+        for (ib, b) in rows.iter().enumerate() {
             out.push(T::list(&[a.clone(), b.clone()]));
-            out.push(T::p(a.clone(), b.clone()));
+            // conses of two rows: all of them in the thorough tier, those involving the atom row or (1 . 100) in the quick tier
+            if thorough || ia == 6 || ib == 6 || ia == 2 || ib == 2 {
+                out.push(T::p(a.clone(), b.clone()));
+            }
         }
     }
     if thorough {
@@ -746,7 +749,7 @@ pub fn nested_cases(sigil: Option<&'static str>) -> Vec<Case> {
     // outer helper kinds
     let outer_kinds = ["none", "defun", "inline", "defconstant"];
     // inner helper kinds; "same-name" gives the inner function the outer function's name with a different body
-    let inner_kinds = ["none", "defun", "inline", "same-name-defun", "defconstant", "two-defuns"];
+    let inner_kinds = ["none", "defun", "inline", "same-name-defun", "defconstant", "two-defuns", "computed-defconst"];
     let positions = ["main-body", "argument-of-outer-call", "inside-outer-defun", "let-binding"];
     for ok in outer_kinds {
         for ik in inner_kinds {
@@ -775,6 +778,7 @@ pub fn nested_cases(sigil: Option<&'static str>) -> Vec<Case> {
                     "defun" | "inline" => (vec![Helper::Fun { name: "INC".into(), inline: ik == "inline", params: Pat::list(vec![Pat::n("Q")]), body: E::List(vec![E::int(1), E::v("Q")]) }], E::List(vec![E::call("INC", vec![E::v("Y")]), E::v("Z")])),
                     "same-name-defun" => (vec![Helper::Fun { name: "DBL".into(), inline: false, params: Pat::list(vec![Pat::n("Q")]), body: E::List(vec![E::int(3), E::v("Q")]) }], E::List(vec![E::call("DBL", vec![E::v("Y")]), E::v("Z")])),
                     "defconstant" => (vec![Helper::Constant { name: "IK".into(), datum: T::int(55) }], E::List(vec![E::v("IK"), E::v("Y"), E::v("Z")])),
+                    "computed-defconst" => (vec![Helper::Const { name: "IK".into(), body: E::prim("+", vec![E::int(50), E::int(5)]) }], E::List(vec![E::v("IK"), E::v("Y"), E::v("Z")])),
                     "two-defuns" => (
                         vec![
                             Helper::Fun { name: "INC".into(), inline: false, params: Pat::list(vec![Pat::n("Q")]), body: E::List(vec![E::int(1), E::v("Q")]) },
@@ -874,19 +878,28 @@ pub fn const_graph_cases(sigil: Option<&'static str>, max_consts: usize) -> Vec<
     let mut out = vec![];
     let params = Pat::list(vec![Pat::n("A"), Pat::n("B")]);
     let args = vec![T::list(&[T::int(5), T::int(7)]), T::list(&[T::int(-2), T::list(&[T::int(1)])])];
-    for via in ["direct", "defun", "inline", "macro"] {
+    for via in ["direct", "defun", "inline", "macro", "defun-if", "inline-if", "direct-computed-base", "destructuring-assign"] {
         for n in 2..=max_consts {
-            // K0 = 1000; K(i+1) depends on K(i) through `via`
-            let mut hs: Vec<Helper> = vec![Helper::Const { name: "K0".into(), body: E::int(1000) }];
+            // K0 = 1000 (or a computed 999+1); K(i+1) depends on K(i) through `via`
+            let computed_base = via.ends_with("-if") || via == "direct-computed-base" || via == "destructuring-assign";
+            let mut hs: Vec<Helper> = vec![Helper::Const { name: "K0".into(), body: if computed_base { E::prim("+", vec![E::int(999), E::int(1)]) } else { E::int(1000) } }];
             for i in 1..n {
                 let prev = format!("K{}", i - 1);
                 let body = match via {
-                    "direct" => E::prim("+", vec![E::Var(prev.clone()), E::int(i as i64)]),
+                    "direct" | "direct-computed-base" => E::prim("+", vec![E::Var(prev.clone()), E::int(i as i64)]),
+                    // (assign (P Q R) (list prev i 3) (+ R (+ Q P))): a three-element destructuring inside a constant
+                    "destructuring-assign" => E::Assign(
+                        AssignKind::Plain,
+                        vec![(Pat::list(vec![Pat::n("P"), Pat::n("Q"), Pat::n("R")]), E::List(vec![E::Var(prev.clone()), E::int(i as i64), E::int(300)]))],
+                        Box::new(E::List(vec![E::v("R"), E::v("Q"), E::v("P")])),
+                    ),
                     "macro" => E::MacroCall(format!("VIA{}", i), vec![E::int(i as i64)]),
                     _ => E::call(&format!("VIA{}", i), vec![E::int(i as i64)]),
                 };
                 hs.push(Helper::Const { name: format!("K{}", i), body });
                 match via {
+                    // the function mentions the constant inside the arms of a conditional
+                    "defun-if" | "inline-if" => hs.push(Helper::Fun { name: format!("VIA{}", i), inline: via == "inline-if", params: Pat::list(vec![Pat::n("X")]), body: E::If(Box::new(E::v("X")), Box::new(E::prim("+", vec![E::v("X"), E::Var(prev)])), Box::new(E::Var(format!("K{}", i - 1)))) }),
                     "defun" | "inline" => hs.push(Helper::Fun { name: format!("VIA{}", i), inline: via == "inline", params: Pat::list(vec![Pat::n("X")]), body: E::prim("+", vec![E::v("X"), E::Var(prev)]) }),
                     "macro" => hs.push(Helper::Macro { name: format!("VIA{}", i), params: vec!["X".into()], template: E::prim("+", vec![E::v("X"), E::Var(prev)]) }),
                     _ => {}
